@@ -424,7 +424,24 @@ class SkelEval(Eval):
         raise Unbound(t)
 
     def ev_struct(self, t):
-        return V(t[1], **{k: self.ev(v) for k, v in t[2].items()})
+        fields = {k: self.ev(v) for k, v in t[2].items()}
+        # a numeric literal stored in a field of a crate type has the field's primitive type (`ScalarValue::F64(0.0)` holds an f64: interpolated
+        # into a template it prints `0f64`)
+        try:
+            decl = None
+            en = self.ogp.crate.enums.get(t[1].rsplit('::', 1)[0]) if self.ogp is not None else None
+            if en:
+                decl = next((v_['fields'] for v_ in en['variants'] if v_['name'] == t[1].rsplit('::', 1)[1]), None)
+            elif self.ogp is not None and t[1] in self.ogp.crate.structs:
+                decl = self.ogp.crate.structs[t[1]].get('fields')
+            for fl in decl or []:
+                ty_ = fl['ty'].replace(' ', '')
+                v_ = fields.get(fl.get('name'))
+                if ty_ in ('f32', 'f64', 'i32', 'u32', 'i64', 'u64') and isinstance(v_, (int, float)) and not isinstance(v_, bool):
+                    fields[fl['name']] = Num(ty_, float(v_) if ty_.startswith('f') else int(v_))
+        except Exception:
+            pass
+        return V(t[1], **fields)
 
     def ev_ok(self, t):
         return self.ev(t[1])
@@ -573,6 +590,12 @@ class SkelEval(Eval):
                 return ('some', r[k]) if k in r else None
             if not args:
                 return r
+            if isinstance(r, list) and args and all(isinstance(x_, tuple) and len(x_) == 2 and x_[0] != 'some' for x_ in r):
+                # a lookup table collected from (key, value) pairs (`.collect::<HashMap<_, _>>()` is membership only - order is never observed):
+                # the last pair with that key wins, as in a map
+                k = self.ev(args[0])
+                hit = [x_[1] for x_ in r if x_[0] == k]
+                return ('some', hit[-1]) if hit else None
         if m == 'contains' or m == 'contains_key':
             a = self.ev(args[0])
             r2 = self.norm_flags(r)
